@@ -13,7 +13,7 @@ for name in sorted(os.listdir(root)):
     d = os.path.join(root, name)
     if not os.path.isdir(d) or name.startswith("own-"):
         continue
-    m = re.match(r"(C\d+)-((?:r2)?m\d+)", name)
+    m = re.match(r"(C\d+)-((?:r\d)?m\d+)", name)
     if not m:
         continue
     target = m.group(1)
@@ -42,7 +42,7 @@ for name in sorted(os.listdir(root)):
         override = json.load(open(op))
     meta = {
         "id": name,
-        "origin": ("sub-agent given only the text of %s and a private worktree of /repo" % target) + ("; second round: additionally told in general terms what a randomized checker samples, and asked for changes such a checker is likely to miss" if "-r2" in name else ""),
+        "origin": ("sub-agent given only the text of %s and a private worktree of /repo" % target) + ("; second round: additionally told in general terms what a randomized checker samples, and asked for changes such a checker is likely to miss" if "-r2" in name else "") + ("; third round: property text and worktree only, asked for three changes of different kinds that need something specific to manifest" if "-r3" in name else ""),
         "breaks": override.get("breaks", [target]),
         "files": files,
         "what": what,
